@@ -83,7 +83,7 @@ def mc_u1(pid, tier):
 
 # property -> list of (family, share of the walk budget)
 FAMILIES = {
-    "C04": [("mixed", 0.5), ("session", 0.3), ("enum:handshake", 0), ("enum:refused", 0), ("react", 0.3), ("enum:react", 0)], "C05": [("mixed", 0.6), ("retry", 0.4), ("react", 0.3), ("enum:react", 0)], "C06": [("inbound", 0.6), ("mixed", 0.3), ("session", 0.2), ("enum:inbound2", 0)],
+    "C04": [("mixed", 0.5), ("session", 0.3), ("enum:handshake", 0), ("enum:refused", 0), ("enum:deadconnect", 0), ("react", 0.3), ("enum:react", 0)], "C05": [("mixed", 0.6), ("retry", 0.4), ("react", 0.3), ("enum:react", 0)], "C06": [("inbound", 0.6), ("mixed", 0.3), ("session", 0.2), ("enum:inbound2", 0)],
     "C07": [("subs", 0.6), ("mixed", 0.4), ("react", 0.3), ("enum:react", 0)], "C08": [("retry", 0.5), ("mixed", 0.3), ("jitter", 0.3), ("enum:retrygrid", 0)], "C09": [("qos2", 0.5), ("wrapq2", 0.4), ("mixed", 0.2), ("session", 0.2)],
     "C10": [("mixed", 0.5), ("persist", 0.4), ("session", 0.3), ("react", 0.3), ("enum:react", 0)], "C11": [("session", 0.7), ("mixed", 0.3), ("enum:refused", 0), ("react", 0.3), ("enum:react", 0)], "C12": [("persist", 0.4), ("wrapsess", 0.3), ("session", 0.3), ("mixed", 0.2), ("enum:refused", 0), ("enum:resume", 0)],
     "C13": [("mixed", 0.3), ("session", 0.3), ("retry", 0.2), ("keepalive", 0.2), ("jitter", 0.2), ("enum:refused", 0), ("enum:resume", 0), ("react", 0.3), ("enum:react", 0)], "C14": [("mixed", 0.7), ("session", 0.3), ("enum:handshake", 0), ("enum:refstate", 0), ("react", 0.3), ("enum:react", 0)],
@@ -149,7 +149,7 @@ def combine(w, dirs, profs=("pub", "sub", "both")):
                     base = len(idx)       # trace numbers inside meta (twin / reference traces) are relative to the driver's own file
                     with open(path) as f:
                         for line in f:
-                            if fam not in ("react", "enum:react", "jitter"):      # re-entrant histories are not behaviours of MqttClient (no conformance check)
+                            if fam not in ("react", "enum:react", "jitter", "enum:deadconnect"):      # re-entrant histories are not behaviours of MqttClient (no conformance check)
                                 pout.write(line)
                             if base and '"meta"' in line and '"ref":0' not in line:
                                 r = json.loads(line)
@@ -159,11 +159,11 @@ def combine(w, dirs, profs=("pub", "sub", "both")):
                             out.write(line)
                     for k, (a, b) in enumerate(fidx):
                         idx.append([a + n, b + n]); src.append([fam, p, k + 1])
-                        if fam not in ("react", "enum:react", "jitter"):
+                        if fam not in ("react", "enum:react", "jitter", "enum:deadconnect"):
                             pidx.append([a + pn, b + pn])
                     if fidx:
                         n += fidx[-1][1]
-                        if fam not in ("react", "enum:react", "jitter"):
+                        if fam not in ("react", "enum:react", "jitter", "enum:deadconnect"):
                             pn += fidx[-1][1]
             json.dump(pidx, open(os.path.join(w, p + ".idx.json"), "w"))
     json.dump(idx, open(os.path.join(w, "all.idx.json"), "w"))
